@@ -913,8 +913,45 @@ fn reg_trunc(v: &mut Vec<Case>) {
 fn sp_halflen() -> Vec<Vec<u8>> { (0..17u8).map(|x| vec![x]).collect() }
 fn rnd_halflen(r: &mut Rng) -> Vec<u8> { vec![r.below(17) as u8] }
 
+// ---- ModInt256::split_vartime on user-defined moduli close to 2^192 (defect D10: smul_trunc decided the sign of a
+// three-word value from its top limb only; moduli below 2^192 + 2^190 then gave k*c1 != c0) ----
+macro_rules! small_split_case {
+    ($v:ident, $id:expr, $m0:expr, $m1:expr, $m2:expr, $m3:expr) => {
+        $v.push(Case { id: $id.into(),
+            describe: "split_vartime on a user-defined ModInt256 modulus close to 2^192 (below the documented bound): k*c1 == c0 mod m exactly, c1 != 0 mod m, zero splits as (0, 1). Input: k (32 bytes LE, reduced by the library)",
+            ops: vec![Op::Custom { len: Some(32), specials: sp_split_small, random: rnd_split_small }],
+            run: Box::new(|inp: &[u8]| {
+                type F = crrl::field::ModInt256<{ $m0 }, { $m1 }, { $m2 }, { $m3 }>;
+                if inp.len() != 32 { return Ok(()); }
+                let m: BigInt = BigInt::from($m0 as u64) + (BigInt::from($m1 as u64) << 64) + (BigInt::from($m2 as u64) << 128) + (BigInt::from($m3 as u64) << 192);
+                let x = F::decode_reduce(inp);
+                let k = le_to_int(&x.encode32());
+                let (c0, c1) = x.split_vartime();
+                let (c0, c1) = (BigInt::from(c0), BigInt::from(c1));
+                if k.sign() == Sign::NoSign { return chk(c0.sign() == Sign::NoSign && c1 == bi(1), || format!("zero split as ({}, {})", c0, c1)); }
+                chk(emod(&c1, &m).sign() != Sign::NoSign, || format!("c1 = {} is zero mod m for k = {:#x}", c1, k))?;
+                chk(emod(&(&k * &c1 - &c0), &m).sign() == Sign::NoSign, || format!("k*c1 != c0 mod m for k = {:#x}: c0 = {} c1 = {}", k, c0, c1))
+            }) });
+    };
+}
+fn sp_split_small() -> Vec<Vec<u8>> {
+    let mut v: Vec<Vec<u8>> = vec![vec![0u8; 32], { let mut o = vec![0u8; 32]; o[0] = 1; o }];
+    let mut k = hex::decode("adcb496802915aabdc7bc3eb1a93c686815d6460aa9f8c58").unwrap(); k.reverse(); k.resize(32, 0);
+    v.push(k);
+    for e in [1u32, 63, 64, 100, 127, 128, 150, 190, 191] { v.push(int_to_le(&pow2(e), 32)); v.push(int_to_le(&(pow2(e) - 1), 32)); v.push(int_to_le(&(pow2(192) - pow2(e)), 32)); }
+    v
+}
+fn rnd_split_small(r: &mut Rng) -> Vec<u8> { let mut b = rand_bytes(r, 32); for i in 24..32 { b[i] = 0; } b }
+fn reg_split_small(v: &mut Vec<Case>) {
+    small_split_case!(v, "modint_split_small@2p192_2p128_1", 1u64, 0u64, 1u64, 1u64);
+    small_split_case!(v, "modint_split_small@2p192_2p104_1", 1u64, 0x0000010000000000u64, 0u64, 1u64);
+    small_split_case!(v, "modint_split_small@2p192_2p139_1", 1u64, 0u64, 0x800u64, 1u64);
+    small_split_case!(v, "modint_split_small@2p193_1235", 0x1235u64, 0u64, 0u64, 2u64);
+}
+
 pub fn register(v: &mut Vec<Case>) {
     reg_neutral(v);
+    reg_split_small(v);
     highx_case!(v, "ecdsa_verify_highx@p256", p256, p256_params);
     highx_case!(v, "ecdsa_verify_highx@secp256k1", secp256k1, secp256k1_params);
     reg_split(v);
